@@ -185,13 +185,35 @@ impl C17Worker {
             self.importer.add_module(m, src);
         }
         self.importer.set_tag("canon");
-        let mut s = Sess::new(self.importer.clone());
-        for m in set {
-            let o = s.submit(&format!("use {m}"));
-            if !o.is_ok() {
-                return Err(format!("canonical delivery: `use {m}` failed: {}", o.result_text()));
+        // The canonical delivery runs on a thread of its own that lives for this one delivery:
+        // per-thread state of the system under test (a `thread_local!` memo, say) filled by earlier
+        // runs of this worker cannot reach the reference, so a delivery that depends on such state
+        // differs from it. Only plain data (digest lines) crosses the thread boundary.
+        fn deliver(imp: SimImporter, set: &[String]) -> Result<Vec<String>, String> {
+            let mut s = Sess::new(imp);
+            for m in set {
+                let o = s.submit(&format!("use {m}"));
+                if !o.is_ok() {
+                    return Err(format!("canonical delivery: `use {m}` failed: {}", o.result_text()));
+                }
             }
+            Ok(full_digest(&s))
         }
+        let imp = self.importer.clone();
+        let imp2 = self.importer.clone();
+        let d: Vec<String> = std::thread::scope(|sc| {
+            match std::thread::Builder::new()
+                .stack_size(16 << 20)
+                .spawn_scoped(sc, move || deliver(imp, set))
+            {
+                Ok(h) => match h.join() {
+                    Ok(r) => r,
+                    Err(_) => Err("canonical delivery panicked outside the trap".to_string()),
+                },
+                // no thread to be had: same-thread reference, as before (weaker, never wrong)
+                Err(_) => deliver(imp2, set),
+            }
+        })?;
         let fetched: BTreeSet<String> = self
             .importer
             .log_since(0)
@@ -199,7 +221,6 @@ impl C17Worker {
             .filter(|e| e.found)
             .map(|e| e.module)
             .collect();
-        let d = full_digest(&s);
         if self.canon.len() > 300 {
             self.canon.clear();
         }
